@@ -149,16 +149,22 @@ class Prop(BaseProp):
         for fn in dt.findall(nodes.field_name):
             anc = doctree.entry_ancestors(fn)
             fields.append((fn.astext(), uid_of(anc[0]["arg"]) if anc and anc[0]["dname"] != "module" else None))
+        want_owner = {}
         for e in exp:
             if e.kind == "class":
                 for m in e.methods + e.ctors:
                     for i in range(min(len(m.types), len(m.params))):
                         for lab in (f"param {m.params[i]}", f"type {m.params[i]}"):
-                            res.count("appended_fields_checked")
-                            owners = [u for t, u in fields if t == lab]
-                            if owners != [m.uid]:
-                                res.violate("field-outside-own-entry:method", f"field ':{lab}:' of {m.name} found under entries {owners}, "
-                                            f"expected [{m.uid}]", wit)
+                            want_owner.setdefault(lab, []).append(m.uid)
+        for lab, uids in want_owner.items():
+            res.count("appended_fields_checked")
+            owners = [u for t, u in fields if t == lab]
+            # several methods may use the same parameter name (e.g. 'args'): the field must occur once per such method
+            if sorted(o for o in owners if o is not None) != sorted(uids) or None in owners:
+                res.violate("field-outside-own-entry:method", f"field ':{lab}:' found under entries {owners}, expected {sorted(uids)}", wit)
+        for e in exp:
+            if e.kind == "class":
+                pass
             elif e.kind in ("data", "option"):
                 res.count("appended_fields_checked")
                 n_own = sum(1 for t, u in fields if t == "type" and u == e.uid)
